@@ -484,6 +484,39 @@ fn case_generic<F: Fl>(c: &Case, obs: &mut Obs) -> PResult {
                                 }
                             }
                         }
+                        // shifting BOTH samples by k leaves the interval of a - b where it is (the second sample may be constant)
+                        if rb.conditioned::<F>(0) || rb.constant {
+                            let bs: Vec<F> = b_full.iter().map(|x| *x + F::from64(kk)).collect();
+                            let rbs = MeanRef::new(&bs.iter().map(|x| x.to64()).collect::<Vec<_>>());
+                            // the shifted second sample must itself stay clear of overflow in its sum of squares
+                            let lim = if F::IS32 { f32::MAX as f64 } else { f64::MAX };
+                            let fits_b = bs.iter().all(|x| x.to64().is_finite() && x.to64() * x.to64() * (bs.len() as f64) < lim / 65536.0);
+                            if !fits_b {
+                                obs.exclude("shift of both samples: the shifted second sample would overflow");
+                            } else if rbs.conditioned::<F>(0) || rbs.constant {
+                                if let (Some(ux), Some(us)) = (unpaired_ref::<F>(&ra, &rb, &c.conf), unpaired_ref::<F>(&ry, &rbs, &c.conf)) {
+                                    obs.eval();
+                                    match unpaired::<F>(&c.conf, &y, &bs) {
+                                        Out::Ok(is) => {
+                                            let (_, l0, h0) = bounds(iu);
+                                            let (_, l1, h1) = bounds(&is);
+                                            let (ex_l, ex_h) = (ux.diff - ux.c * ux.se, ux.diff + ux.c * ux.se);
+                                            let (es_l, es_h) = (us.diff - us.c * us.se, us.diff + us.c * us.se);
+                                            for (x0, y0, ex, es) in [(l0, l1, ex_l, es_l), (h0, h1, ex_h, es_h)] {
+                                                if x0.is_finite() {
+                                                    let disc = (es - ex).abs();
+                                                    let d = (y0 - x0).abs();
+                                                    let tol = ux.tol + us.tol + disc;
+                                                    ensure!(d <= tol, format!("C16/shift_both/unpaired/{kn}"), "{}: shifting both samples by {kk:e} moves an unpaired bound from {x0:e} to {y0:e} (difference {d:e} > tol {tol:e}; second sample {})", F::NAME, if rb.constant { "constant" } else { "not constant" });
+                                                }
+                                            }
+                                            obs.class(if rb.constant { "shift/unpaired-both/constant-second-sample" } else { "shift/unpaired-both" });
+                                        }
+                                        o => return crate::engine::fail("C16/shift/rejected", o.describe()),
+                                    }
+                                }
+                            }
+                        }
                         obs.nontrivial(&("shift", F::IS32, c.shift_code, c.conf.kind, c.conf.l().to_bits(), crate::engine::hash_of(&y.iter().map(|x| x.bits64()).collect::<Vec<_>>())));
                     }
                     o => return crate::engine::fail("C16/shift/rejected", o.describe()),
@@ -744,7 +777,17 @@ pub fn strategy(max_n: usize) -> impl Strategy<Value = Case> {
         let er = if f32_ { -20i32..=20 } else { -150i32..=150 };
         let pair = prop_oneof![19 => (gen::sample_of(f32_, max_n, false), gen::sample_of(f32_, max_n, false)).boxed(), 1 => crate::props::c04::tied_sd_pair(f32_).boxed()];
         (pair, gen::positive_sample_of(f32_, max_n.min(500)), gen::conf(), er, -64i32..=64, prop::collection::vec(any::<u16>(), 0..64))
-            .prop_map(|((a, b), p, conf, e, shift_code, perm)| Case { a, b, p, conf, e, shift_code, perm })
+            .prop_map(|((a, mut b), p, conf, e, shift_code, perm)| {
+                // one pair in sixteen: a constant second sample (a fixed baseline)
+                if perm.len() % 16 == 3 {
+                    let v = b.data[0];
+                    for x in b.data.iter_mut() {
+                        *x = v;
+                    }
+                    b.shape = "constant".into();
+                }
+                Case { a, b, p, conf, e, shift_code, perm }
+            })
     })
 }
 
@@ -777,7 +820,7 @@ pub fn run(run: &mut Run) {
     for c in ["exact_scaling/f32/lowest-exponents", "exact_scaling/f64/lowest-exponents", "exact_scaling/f32/highest-exponents", "exact_scaling/f64/highest-exponents", "exact_scaling/f64/interior", "exact_scaling/paired"] {
         run.require_class(c);
     }
-    for c in ["scaling/arithmetic/bit-exact", "scaling/paired/bit-exact", "scaling/unpaired/bit-exact", "scaling/harmonic", "scaling/geometric", "negation/bit-exact", "negation/merge-history/bit-exact", "scaling/merge-history/bit-exact", "scaling/edge-upper/arithmetic", "scaling/edge-lower/arithmetic", "scaling/edge-upper/paired", "reorder/non-identity", "shift/checked", "shift/unpaired-checked", "reorder/all-permutations", "f32/two", "f32/upper", "f64/lower"] {
+    for c in ["scaling/arithmetic/bit-exact", "scaling/paired/bit-exact", "scaling/unpaired/bit-exact", "scaling/harmonic", "scaling/geometric", "negation/bit-exact", "negation/merge-history/bit-exact", "scaling/merge-history/bit-exact", "scaling/edge-upper/arithmetic", "scaling/edge-lower/arithmetic", "scaling/edge-upper/paired", "shift/unpaired-both", "shift/unpaired-both/constant-second-sample", "reorder/non-identity", "shift/checked", "shift/unpaired-checked", "reorder/all-permutations", "f32/two", "f32/upper", "f64/lower"] {
         run.require_class(c);
     }
     run.assumptions.push("scaling is required to be bit-exact only where no intermediate quantity leaves the normal floating-point range (data in [2^-200, 2^200] resp. [2^-25, 2^25], variance-level quantities checked from the exact statistics); other cases are counted as excluded".into());
